@@ -190,7 +190,7 @@ EDGES1 = [0, 1, 3, 6]
 EDGES2 = [[0, 1, 3], [0, 2, 5]]
 
 
-def check_iterate_bins(dim: int, n1: int, n2: int, v: int, foreign: bool) -> bool:
+def check_iterate_bins(dim: int, n1: int, n2: int, v: int, foreign: bool, nested: bool = False) -> bool:
     """
     pre: 1 <= dim <= 2
     pre: 1 <= n1 <= 3 and 1 <= n2 <= 2
@@ -204,13 +204,20 @@ def check_iterate_bins(dim: int, n1: int, n2: int, v: int, foreign: bool) -> boo
     if dim == 2 and n1 == 3:
         n1 = 2
     inner = []
+    # nested: the cells come from an analysis that iterated bins itself - their
+    # own context already holds "bin" and "bins" items, which must stay
+    # reachable (context.bin.bin, context.bins.bins)
+    def own_ctx(c):
+        if nested:
+            return {"c": c, "bin": {"edges": "inner%d" % c}, "bins": {"q": c}}
+        return {"c": c}
     if dim == 1:
         edges = EDGES1[:n1 + 1]
         bins = []
         for i in range(n1):
             hh = histogram([0, 1], [v + i])
             inner.append((hh, ((edges[i], edges[i + 1]),), {"c": i}))
-            bins.append((hh, {"c": i}))
+            bins.append((hh, own_ctx(i)))
     else:
         edges = [EDGES2[0][:n1 + 1], EDGES2[1][:n2 + 1]]
         bins = []
@@ -220,7 +227,7 @@ def check_iterate_bins(dim: int, n1: int, n2: int, v: int, foreign: bool) -> boo
                 hh = histogram([0, 1], [v + 10 * i + j])
                 inner.append((hh, ((edges[0][i], edges[0][i + 1]), (edges[1][j], edges[1][j + 1])),
                               {"c": 10 * i + j}))
-                row.append((hh, {"c": 10 * i + j}))
+                row.append((hh, own_ctx(10 * i + j)))
             bins.append(row)
     outer = histogram(copy.deepcopy(edges), bins)
     hctx = {"variable": {"name": "x"} if dim == 1 else
@@ -243,7 +250,16 @@ def check_iterate_bins(dim: int, n1: int, n2: int, v: int, foreign: bool) -> boo
             return h.ok(False)
         if tuple(ctx["bin"]["edges"]) != cell_edges:
             return h.ok(False)
-        if ctx["bins"] != snap or ctx["bins"] is hctx:
+        if nested:
+            if ctx["bin"].get("bin") != {"edges": "inner%d" % own["c"]}:
+                return h.ok(False)
+            if ctx["bins"].get("bins") != {"q": own["c"]}:
+                return h.ok(False)
+            outer_ctx = dict(ctx["bins"])
+            del outer_ctx["bins"]
+            if outer_ctx != snap:
+                return h.ok(False)
+        elif ctx["bins"] != snap or ctx["bins"] is hctx:
             return h.ok(False)
         if not isinstance(ctx["bin"].get("edges_str"), str):
             return h.ok(False)
